@@ -87,6 +87,25 @@ func (w *Walker) Objs(from int) []string { return w.objs[from:] }
 // NumObjs is the number of heap entries printed so far.
 func (w *Walker) NumObjs() int { return len(w.objs) }
 
+// PtrID returns the number of the pointee of the non-nil pointer v (after Term has seen it).
+func (w *Walker) PtrID(v reflect.Value) int {
+	id, ok := w.ids[key{kCell, v.Pointer()}]
+	if !ok {
+		panic("graphwalk: pointer not walked")
+	}
+	return id
+}
+
+// TouchedList returns the numbers referenced since the last ResetTouched.
+func (w *Walker) TouchedList() []int {
+	out := make([]int, 0, len(w.Touched))
+	for id := range w.Touched {
+		out = append(out, id)
+	}
+	sort.Ints(out)
+	return out
+}
+
 // ResetTouched forgets which objects were referenced.
 func (w *Walker) ResetTouched() { w.Touched = map[int]bool{} }
 
@@ -245,12 +264,52 @@ func (w *Walker) groupElem(g *group, i int) reflect.Value {
 	panic("graphwalk: uncovered backing-array element")
 }
 
+// privTerm prints the contents of an unexported field: scalars and zero
+// values faithfully (reflect can read but not set them), anything that holds
+// a reference as an opaque token (it is never entered by dials).
 func privTerm(v reflect.Value) string {
 	switch v.Kind() {
 	case reflect.Bool, reflect.Int, reflect.Int8, reflect.Int16, reflect.Int32, reflect.Int64,
 		reflect.Uint, reflect.Uint8, reflect.Uint16, reflect.Uint32, reflect.Uint64, reflect.Uintptr,
-		reflect.Float32, reflect.Float64, reflect.String:
+		reflect.Float32, reflect.Float64, reflect.Complex64, reflect.Complex128, reflect.String:
 		return "(HLeaf " + rty.ValTerm(v) + ")"
+	case reflect.Ptr:
+		if v.IsNil() {
+			return "(HPtr None)"
+		}
+	case reflect.Map:
+		if v.IsNil() {
+			return "(HMap None)"
+		}
+	case reflect.Slice:
+		if v.IsNil() {
+			return "(HSlice None)"
+		}
+	case reflect.Interface:
+		if v.IsNil() {
+			return "HNilIface"
+		}
+	case reflect.Chan, reflect.Func:
+		if v.IsNil() {
+			return "(HLeaf VNil)"
+		}
+	case reflect.Array:
+		parts := make([]string, v.Len())
+		for i := range parts {
+			parts[i] = privTerm(v.Index(i))
+		}
+		return "(HArray " + coqfmt.List(parts) + ")"
+	case reflect.Struct:
+		t := v.Type()
+		parts := make([]string, v.NumField())
+		for i := range parts {
+			if t.Field(i).PkgPath != "" {
+				parts[i] = "(HPriv " + privTerm(v.Field(i)) + ")"
+			} else {
+				parts[i] = privTerm(v.Field(i))
+			}
+		}
+		return "(HStruct " + coqfmt.List(parts) + ")"
 	}
 	return "(HLeaf (VOpaque 0))"
 }
